@@ -1,5 +1,5 @@
 //@ unit C16_cont
-//@ props C16
+//@ props C16 C01
 //@ module src/tables/glyf/outline.rs
 //@ strength bounded(one contour of 4 and of 5 points: all on/off-curve patterns with concrete pairwise-distinct coordinates; 3 points with fully symbolic i16 coordinates in the thorough tier)
 //@ note exact f32 equality is sound here: every intermediate value is a dyadic rational below 2^17
@@ -99,17 +99,17 @@ fn contour_case<const N: usize>(symbolic_coordinates: bool) {
     }
 }
 
-//@ harness contour_patterns4 kind=bounded:4points_all_16_patterns fns=GlyfTable::visit_simple_glyph_outline,Contour::calculate_origin,Contour::points,Points::next,SimpleGlyph::contours timeout=900
+//@ harness contour_patterns4 kind=bounded:4points_all_16_patterns fns=GlyfTable::visit_simple_glyph_outline,Contour::calculate_origin,Contour::points,Points::next,SimpleGlyph::contours timeout=900 props=C16
 #[kani::proof]
 #[kani::unwind(14)]
 fn contour_patterns4() { contour_case::<4>(false) }
 
-//@ harness contour_patterns5 kind=bounded:5points_all_32_patterns fns=GlyfTable::visit_simple_glyph_outline,Contour::calculate_origin,Contour::points,Points::next timeout=900
+//@ harness contour_patterns5 kind=bounded:5points_all_32_patterns fns=GlyfTable::visit_simple_glyph_outline,Contour::calculate_origin,Contour::points,Points::next timeout=900 props=C16
 #[kani::proof]
 #[kani::unwind(16)]
 fn contour_patterns5() { contour_case::<5>(false) }
 
-//@ harness contour3 kind=bounded:3points_symbolic_coordinates fns=GlyfTable::visit_simple_glyph_outline,Contour::calculate_origin,Contour::points,Points::next timeout=1500 tier=thorough
+//@ harness contour3 kind=bounded:3points_symbolic_coordinates fns=GlyfTable::visit_simple_glyph_outline,Contour::calculate_origin,Contour::points,Points::next timeout=1500 tier=thorough props=C16
 #[kani::proof]
 #[kani::unwind(14)]
 fn contour3() { contour_case::<3>(true) }
